@@ -22,6 +22,7 @@ pub fn def() -> PropDef {
         flavours: &["tokio"],
         outcome: None,
         extra_profiles: &[],
+        adapt: None,
     }
 }
 
